@@ -10,7 +10,7 @@ if not os.path.exists(wt):
     subprocess.run(['git', '-C', '/repo', 'worktree', 'add', '--detach', wt, 'HEAD'], check=True, stdout=subprocess.DEVNULL, stderr=subprocess.DEVNULL)
 prev = '/tmp/hunt/%s.prev.md' % pid
 with open(prev, 'w') as f:
-    for n in ('hunt_%s_NOTES.md', 'hunt2_%s_NOTES.md', 'hunt3_%s_NOTES.md', 'hunt4_%s_NOTES.md', 'hunt5_%s_NOTES.md'):
+    for n in ('hunt_%s_NOTES.md', 'hunt2_%s_NOTES.md', 'hunt3_%s_NOTES.md', 'hunt4_%s_NOTES.md', 'hunt5_%s_NOTES.md', 'hunt6_%s_NOTES.md', 'hunt7_%s_NOTES.md'):
         q = V + '/triage/' + n % prop
         if os.path.exists(q):
             f.write('\n\n===== notes of an earlier auditor (%s) =====\n\n' % n.split('_')[0] + open(q).read())
